@@ -701,9 +701,10 @@ pub fn enumerate(base: &SchedCase, focus: SF, bound: usize, excl_only: bool, max
 pub fn exhaustive_stage(focus: SF, tier: Tier, _seed: u64) -> crate::infra::CustomOut {
     let mut out = crate::infra::CustomOut::default();
     let progs = canonical_programs(tier);
-    let (bound, max_runs) = match tier {
-        Tier::Quick => (1usize, 400usize),
-        Tier::Thorough => (2, 30_000),
+    // preemption bounds: (sync programs, async programs); async stores touch ~10x more locks
+    let (bound_sync, bound_async, max_runs, n_threads) = match tier {
+        Tier::Quick => (2usize, 1usize, 2_000usize, 8usize),
+        Tier::Thorough => (3, 2, 120_000, 16),
     };
     let id = match focus {
         SF::C17 => "C17",
@@ -716,7 +717,7 @@ pub fn exhaustive_stage(focus: SF, tier: Tier, _seed: u64) -> crate::infra::Cust
     let next = Arc::new(std::sync::atomic::AtomicUsize::new(0));
     let results: Arc<Mutex<Vec<(String, u64, Vec<u64>, Option<(Violation, Vec<u8>)>, bool)>>> = Arc::new(Mutex::new(Vec::new()));
     let mut hs = Vec::new();
-    for _ in 0..8 {
+    for _ in 0..n_threads {
         let progs = progs.clone();
         let next = next.clone();
         let results = results.clone();
@@ -726,6 +727,7 @@ pub fn exhaustive_stage(focus: SF, tier: Tier, _seed: u64) -> crate::infra::Cust
                 break;
             }
             let (name, case) = &progs[i];
+            let bound = if name.starts_with("sync") { bound_sync } else { bound_async };
             let (runs, keys, viol, trunc) = enumerate(case, focus, bound, true, max_runs);
             results.lock().unwrap().push((name.clone(), runs, keys, viol, trunc));
         }));
@@ -758,7 +760,7 @@ pub fn exhaustive_stage(focus: SF, tier: Tier, _seed: u64) -> crate::infra::Cust
     *out.classes.entry("exhaustive:schedules".into()).or_insert(0) += out.evaluations;
     out.extra.insert(
         "bounded_exhaustive".into(),
-        json!({"preemption_bound": bound, "decision_points": "exclusive lock acquisitions (mutex / write locks) and blocked / finished threads", "programs": per_prog, "exhaustive": all_complete, "max_schedules_per_program": max_runs}),
+        json!({"preemption_bound": {"sync_programs": bound_sync, "async_programs": bound_async}, "decision_points": "exclusive lock acquisitions and releases (mutex / write locks) and blocked / finished threads", "programs": per_prog, "exhaustive": all_complete, "max_schedules_per_program": max_runs}),
     );
     if let Some((name, c)) = progs.first() {
         out.samples.push(json!({"part": "exhaustive", "program": name, "case": serde_json::to_value(c).unwrap_or(Value::Null)}));
